@@ -9,8 +9,8 @@ import streams_common as sc
 import vlib
 
 PID = "C13"
-MODEL_TARGETS = ["model/StreamCases.vo"]
-HARNESS_BINS = ["streams"]
+MODEL_TARGETS = ["model/StreamCases.vo", "model/ExecCases.vo"]
+HARNESS_BINS = ["streams", "exec"]
 KNOWN_SECOND = "stream-second-fold-skips-new"
 RULE = ("a case is one stream instance in one run of execute_air on one peer of a simulated honest history (see C12 for the histories); "
         "stream contents are observed where a canon is executed by the run (canon result in the produced data and the argument the `see` "
@@ -36,12 +36,35 @@ ASSUMPTIONS = [
 ]
 
 
+# (added after the seeded change C13-ap-merge-scheme-previous was missed by this check — C07/C08/C09 caught it) round trips in
+# which a peer that already holds the `ap` states of a stream merges data where ANOTHER peer made progress inside the fold
+# iterations; given to the executor model in lock-step (a dropped iteration shows as a disagreement on the produced trace)
+ROUND_TRIPS = [
+    '(seq (seq (ap "x" $in) (ap "y" $in)) (seq (fold $in i (seq (call "@B" ("s" "id") [i] $out) (next i)) (null)) (seq (canon "@A" $out #res) (call "@A" ("s" "args") [#res]))))',
+    '(seq (seq (ap "x" $in) (ap "y" $in)) (seq (fold $in i (par (call "@B" ("s" "id") [i] $out) (next i)) (null)) (seq (canon "@A" $out #res) (call "@C" ("s" "args") [#res]))))',
+    '(seq (seq (ap ("k1" "x") %in) (ap ("k2" "y") %in)) (seq (fold %in i (seq (call "@B" ("s" "id") [i] $out) (next i)) (null)) (seq (canon "@A" $out #res) (call "@A" ("s" "args") [#res]))))',
+    '(seq (call "@A" ("s" "arr") [] xs) (seq (fold xs x (seq (ap x $in) (next x))) (seq (fold $in i (seq (call "@B" ("s" "id") [i] $out) (seq (call "@C" ("s" "tag") [] $out) (next i))) (null)) (seq (canon "@A" $out #res) (call "@B" ("s" "args") [#res])))))',
+]
+
+
 def gen_cases(rng, tier, escalate=False):
-    return sc.gen_cases(rng, tier, escalate)
+    cases = sc.gen_cases(rng, tier, escalate)
+    import airgen
+    for s in ROUND_TRIPS:
+        for k in range(1 if tier == "quick" else 4):
+            ops = airgen.fifo_schedule(10) if k == 0 else airgen.gen_schedule(rng, n_ops=14)
+            cases.append({"driver": "exec", "script": s, "peers": ["A", "B", "C"], "init": 0, "services": airgen.DEFAULT_SERVICES,
+                          "ops": ops, "oracles": [], "seed": rng.randrange(1 << 30), "drain": True, "model_drain": True})
+    return cases
 
 
 def evaluate(cases, result, tier):
     known = {k["key"] for k in vlib.known_findings(PID)}
+    exec_cases = [c for c in cases if c.get("driver") == "exec"]
+    cases = [c for c in cases if c.get("driver") != "exec"]
+    if exec_cases:
+        import exec_common
+        exec_common.evaluate(exec_cases, result, {"model": "check_case"}, tag="C13-exec")
 
     def classify(i, fails, history_shows_hole):
         if i not in fails.get("auxnothole", []):
